@@ -248,7 +248,46 @@ pub fn check_case(headers: &[H], filters: &[F]) -> Vec<(String, String)> {
     if got3 != want {
         out.push((format!("action-filter-headers-with-unit-trace:{}", culprit(&got3)), format!("Action::filter_headers(.., Some(trace)) gives {got3:?}, reference fold gives {want:?}")));
     }
+    // the same with the rule-ids header asked for: the filtered list is unchanged and ONE header is appended after it, whatever
+    // the list already holds (a header of that name from the backend or from a filter is an ordinary header)
+    let mut action = action_with_filters(filters);
+    let mut got4 = from_headers(action.filter_headers(to_headers(headers), 200, true, None));
+    let ids = action.get_applied_rule_ids().iter().cloned().collect::<Vec<String>>().join(";");
+    let last = got4.pop();
+    if got4 != want || last != Some(("X-RedirectionIo-RuleIds".to_string(), ids.clone())) {
+        out.push((
+            format!("action-filter-headers-with-rule-ids-header:{}", if got4 != want { "other-headers-changed" } else { "appended-header" }),
+            format!("Action::filter_headers(.., add_rule_ids_header = true) gives {got4:?} followed by {last:?}; expected the reference fold {want:?} followed by (X-RedirectionIo-RuleIds, {ids:?})"),
+        ));
+    }
     out
+}
+
+/// fourth universe: the name of the rule-ids header itself, in two letter cases, in the incoming list and as a filter target
+pub fn rule_ids_universe() -> (Vec<Vec<H>>, Vec<Vec<F>>) {
+    let names = ["X-RedirectionIo-RuleIds", "x-redirectionio-ruleids", "X"];
+    let mut lists: Vec<Vec<H>> = vec![vec![]];
+    for a in names {
+        lists.push(vec![(a.to_string(), "old".to_string())]);
+        for b in names {
+            lists.push(vec![(a.to_string(), "old".to_string()), (b.to_string(), "b".to_string())]);
+            lists.push(vec![("Y".to_string(), "y".to_string()), (a.to_string(), "old".to_string()), (b.to_string(), "b".to_string())]);
+        }
+    }
+    let mut singles: Vec<F> = Vec::new();
+    for a in ACTIONS {
+        for n in &names[..2] {
+            singles.push(F { action: a.to_string(), header: n.to_string(), value: "f".to_string(), hash: false });
+        }
+    }
+    let mut seqs: Vec<Vec<F>> = vec![vec![]];
+    for s in &singles {
+        seqs.push(vec![s.clone()]);
+        for t in &singles {
+            seqs.push(vec![s.clone(), t.clone()]);
+        }
+    }
+    (lists, seqs)
 }
 
 pub fn replay(case: &Value) -> Vec<String> {
@@ -258,6 +297,7 @@ pub fn replay(case: &Value) -> Vec<String> {
         Some("prefix") => ":prefix-names/target-hash",
         Some("twins") => ":names-differing-by-one-non-letter-bit",
         Some("long") => ":long-lists",
+        Some("rule-ids") => ":rule-ids-header-name",
         _ => "",
     };
     check_case(&headers, &filters).into_iter().map(|(s, _)| format!("{s}{suffix}")).collect()
@@ -318,6 +358,17 @@ pub fn run(tier: Tier) -> i32 {
                 changed.insert_str(&format!("{headers:?}{filters:?}"));
             }
             outcomes.insert_str(&format!("{want:?}"));
+        }
+    });
+    // fourth universe: the rule-ids header's own name
+    let (rlists, rseqs) = rule_ids_universe();
+    par_range(ctx.threads, rseqs.len(), |i| {
+        let filters = &rseqs[i];
+        for headers in &rlists {
+            ctx.eval(1);
+            for (sig, what) in crate::common::run_case(|| json!({"headers": headers, "filters": filters, "universe": "rule-ids"}), || check_case(headers, filters)) {
+                ctx.report(Violation { signature: format!("{sig}:rule-ids-header-name"), what, case: json!({"headers": headers, "filters": filters, "universe": "rule-ids"}), weight: (headers.len() + filters.len() * 4) as u64 });
+            }
         }
     });
     // third universe: names of equal length that differ in one non-letter byte by bit 5 ('^' 0x5E / '~' 0x7E): a case-insensitive
